@@ -327,6 +327,11 @@ func relinkCase(in map[string]any) map[string]any {
 	}
 	sort.Strings(names)
 	out := map[string]any{"files": names}
+	nrefs := int64(0)
+	for _, f := range first {
+		nrefs += int64(len(refsOf(orig[f.Path()])))
+	}
+	out["nrefs"] = nrefs
 	sameMode := mode == mode2
 	strip := func(p *descriptorpb.FileDescriptorProto) *descriptorpb.FileDescriptorProto {
 		if sameMode {
